@@ -21,4 +21,7 @@ for d in sorted(glob.glob(os.path.join(V, "seeded", "*"))):
     caught = [k for k, v in det.items() if v.get("exit") == 1]
     missed = [k for k, v in det.items() if v.get("exit") != 1]
     keys = sorted(set(k for v in det.values() for k in v.get("keys", [])))[:4]
+    if m.get("superseded"):
+        print("| %s | %s | %s | n/a - no longer breaks the property on the repaired tree (see meta.json) | |" % (os.path.basename(d), m.get("property"), first))
+        continue
     print("| %s | %s | %s | %s%s | %s |" % (os.path.basename(d), m.get("property"), first, ", ".join(caught) or "-", (" (not by: " + ", ".join(missed) + ")") if missed else "", "; ".join(keys).replace("|", "/")))
